@@ -199,6 +199,39 @@ class Harness:
 
         self.rc_ev, self.fc_ev, self.hints_pr, self.pkg_res = HRc(), HFc(), HHints(), HPkg()
 
+        # evaluators of ANOTHER format version, registered next to the ones in use (the designed way to serve several format versions from one
+        # provider) and created after them: they are never to be asked -- an answer of theirs is recorded as a leak and is deliberately wrong
+        other = EdifactFormatVersion.FV2304
+
+        class OtherRc(RcEvaluator):
+            edifact_format, edifact_format_version = fmt, other
+
+            def _get_default_context(self):
+                return None
+
+        class OtherFc(FcEvaluator):
+            edifact_format, edifact_format_version = fmt, other
+
+        def other_rc(k):
+            async def ev(self, evaluatable_data, context):  # pylint: disable=unused-argument
+                H.log.append(("other-version", k, "evaluator of the format version in use", "evaluator of FV2304"))
+                return ConditionFulfilledValue.UNFULFILLED if H.rc.get(k) == "FULFILLED" else ConditionFulfilledValue.FULFILLED
+
+            return ev
+
+        def other_fc(k):
+            async def ev(self, entered_input):
+                H.log.append(("other-version", k, "evaluator of the format version in use", "evaluator of FV2304"))
+                return EvaluatedFormatConstraint(format_constraint_fulfilled=H.fc_expected.get(k) != entered_input, error_message=None)
+
+            return ev
+
+        for k in RC_KEYS:
+            setattr(OtherRc, f"evaluate_{k}", other_rc(k))
+        for k in FC_KEYS:
+            setattr(OtherFc, f"evaluate_{k}", other_fc(k))
+        self.other_rc_ev, self.other_fc_ev = OtherRc(), OtherFc()
+
         def provider():
             cer = H.cer_var.get()
             if cer is None:
@@ -206,7 +239,7 @@ class Harness:
             return EvaluatableData(body=cer, edifact_format=fmt, edifact_format_version=ver)
 
         def cfg(binder):
-            binder.bind(TokenLogicProvider, SingletonTokenLogicProvider([self.rc_ev, self.fc_ev, self.hints_pr, self.pkg_res]))
+            binder.bind(TokenLogicProvider, SingletonTokenLogicProvider([self.rc_ev, self.fc_ev, self.hints_pr, self.pkg_res, self.other_rc_ev, self.other_fc_ev]))
             binder.bind_to_provider(EvaluatableDataProvider, provider)
 
         inject.clear_and_configure(cfg)
@@ -383,7 +416,8 @@ def sc_rc(name, expr, rc, hints):
 
         H.reset(rc=rc, hints=hints, yields=yields)
         out = H.run(lambda: requirement_constraint_evaluation(expr))
-        return canon(out), site_cases(H, yields, rc, hints, {}, False)
+        strangers = [e for e in H.log if e[0] == "other-version"]
+        return canon(out) + ("|LEAK " + repr(strangers[:3]) if strangers else ""), site_cases(H, yields, rc, hints, {}, False)
 
     return Scenario("requirement_constraint_evaluation", name, {"expression": expr, "rc": rc, "hints": hints}, slots, fn)
 
@@ -927,7 +961,8 @@ def run(ctx):
                 base = out
             inp = {"kind": sc.kind, "scenario": sc.name, "params": sc.params, "slots": [[list(map(str, t)), j] for t, j in sc.slots], "yield_vector": list(vec)}
             if "|LEAK" in out:
-                ctx.fail(f"{sc.name}|leak", inp, "every evaluator finds its own task's text in the ContextVar after yielding", out, "oracle: context isolation")
+                ctx.fail(f"{sc.name}|leak", inp, "every evaluator finds its own task's text in the ContextVar after yielding, and only the evaluators registered for the format version in use are asked",
+                         out, "oracle: context isolation")
             elif out != base:
                 ctx.fail(f"{sc.name}|order", inp, base, out, "oracle: result for this yield vector differs from the result when nothing yields")
             if getattr(sc, "problem", None):
@@ -994,7 +1029,9 @@ def valid_scenarios(ctx):
     if not hasattr(ctx, key):
         S = [sc_valid("valid1", ["Muss [1] U [2]", "Muss [3] O [4]"], 1),
              sc_valid("valid2", ["Muss [1] U [2]", "Muss [1] O [501]"], 2),
-             sc_valid("valid3", ["Muss [1] X [2]", "Muss [2] U [501]", "Soll [1] U [3]"], 3)]
+             sc_valid("valid3", ["Muss [1] X [2]", "Muss [2] U [501]", "Soll [1] U [3]"], 3),
+             # many possible content evaluation results (3^4 = 81 tasks in one gather): a bound on what runs at once must not mix their data up
+             sc_valid("valid-many", ["Muss ([1] U [2]) O ([3] U [4])"], 4)]
         setattr(ctx, key, S)
     return getattr(ctx, key)
 
